@@ -1,8 +1,10 @@
 import Qryn.Proofs.BatcherProgress
 import Qryn.Proofs.Handler
 import Qryn.Proofs.ErrorHandler
+import Qryn.Proofs.BatcherLocks
 import Qryn.Gen.Inserts
 import Qryn.Gen.ErrorHandler
+import Qryn.Gen.BatcherLocks
 /-! # C01 — a push is acknowledged only after ClickHouse accepted all of its rows
 
 Property theorems only. Model: `Qryn.Ingest.Batcher` — `InsertServiceV2` as a state machine whose steps are
@@ -388,6 +390,60 @@ example :
       = .status 400 := by decide
 
 end answer
+
+
+/-! ## the atomic steps are the lock holds of the source (`Gen.BatcherLocks`; see also `Props/C02`) -/
+section locks
+open Qryn.Ingest.BatcherLocks
+
+/-- the facts the atomic-step convention needs hold of the regenerated critical sections (`C02.locks_atomic`
+    spells them out) -/
+theorem locks_atomic :
+    atomicSwap Gen.BatcherLocks.methods Gen.BatcherLocks.swapProgram Gen.BatcherLocks.requestProgram = true ∧
+    Gen.BatcherLocks.iterationProgram = iterationAsModelled := by
+  decide
+
+/-- **ack_sound, hold by hold.** With `swapBuffers` running as the regenerated sequence of lock holds and
+    requests / flush triggers of other goroutines arriving anywhere between two holds, a promise is still completed
+    without error only after a `client.Do` that returned nil for a block containing all its values. -/
+theorem ack_sound_locks (k : Kind) (maxQueue : Nat) (R : ReqId → Req) (ops : List MOp)
+    (hW : ∀ op ∈ ops, MWellFormed R op) :
+    AckSound (planOf k) R (mrun Gen.BatcherLocks.swapProgram (MSvc.init (planOf k) maxQueue) ops).2 := by
+  have hat : atomicProg Gen.BatcherLocks.swapProgram = true := by decide
+  have href := (mrun_refines (shape_of_atomic _ hat) ops (MSvc.init (planOf k) maxQueue) _ (Rel.idle _)).1
+  rw [href]
+  exact Sound.ackSound _ (run_sound (plans_ok k) _ _ (init_inv maxQueue) (absRun_wellFormed ops _ hW) []).2
+
+/-- the two-hold split of seeded change C02-1 breaks it: request 2 is acknowledged although the only INSERT that
+    carried its rows failed (the run of `C02.two_hold_split_counterexample`) -/
+theorem two_hold_split_ack_counterexample :
+    ¬ AckSound samplesPlan
+        (fun id => { id := id, ptype := .timeSamplesData, size := 30,
+                     arrays := [("MTimestampNS", [10 * id]), ("MFingerprint", [10 * id + 1]), ("MType", [10 * id + 2]),
+                                ("MValue", [10 * id + 3]), ("MMessage", [10 * id + 4])] })
+        [.insert [("type", [12, 22]), ("fingerprint", [11, 21]), ("timestamp_ns", [10, 20]), ("string", [14, 24]), ("value", [13, 23])] [1] .err,
+         .resolved 1 .err,
+         .insert [("type", []), ("fingerprint", []), ("timestamp_ns", []), ("string", []), ("value", [])] [2] .ok,
+         .resolved 2 .ok] := by
+  intro h
+  rcases h [.insert [("type", [12, 22]), ("fingerprint", [11, 21]), ("timestamp_ns", [10, 20]), ("string", [14, 24]), ("value", [13, 23])] [1] .err,
+            .resolved 1 .err,
+            .insert [("type", []), ("fingerprint", []), ("timestamp_ns", []), ("string", []), ("value", [])] [2] .ok] [] 2 rfl with h0 | ⟨b, w, hb, hc⟩
+  · simp only [NoRows] at h0; revert h0; decide
+  · simp only [List.mem_cons, Event.insert.injEq, reduceCtorEq, and_false, false_or, List.not_mem_nil, or_false] at hb
+    obtain ⟨rfl, _, _⟩ := hb
+    have := hc "type" (by decide)
+    revert this
+    decide
+
+/-- the documented limit as a regenerated fact: `Request` reads `svc.running` before it takes the lock (the first
+    segment of `Request` is free and reads exactly `running`), while `Run`'s stop branch writes it under the lock —
+    a data race the model does not exhibit (it reads `running` inside the atomic step) -/
+theorem running_read_outside_lock :
+    ((findMethod Gen.BatcherLocks.methods "Request").bind (·.segs.head?)) = some (.free ⟨["running"], [], []⟩) := by
+  decide
+
+end locks
 
 /-! ## non-vacuity -/
 
